@@ -22,6 +22,8 @@ def main():
     salt = int(os.environ.get("C07_SALT", "0"))
     doc = json.loads(sys.stdin.read())
     answers = []
+    from pbt.simharness import RecLogger
+    shared_logger = RecLogger()  # one logger object for every run of this process
     for n, case in enumerate(doc["runs"], 1):
         random.seed(salt * 7919 + n)
         np.random.seed((salt * 104729 + n) % (2**32))
@@ -29,7 +31,7 @@ def main():
             random.random()
             np.random.random()
         try:
-            out = digest_case(case)
+            out = digest_case(case, logger=shared_logger)
         except PamsCrash as c:
             out = {"crash": f"{c.innermost_pams_file()}:{c.exc_type}", "digest": f"crash:{c.innermost_pams_file()}:{c.exc_type}:{c.exc_msg}",
                    "settings_unchanged": True, "classes": [], "n_logs": 0, "records": 0, "tb": c.tb_text}
